@@ -26,6 +26,7 @@ RULE = (
     "compactness level; SX or MX. Non-trivial = a compile after an add-after-step or a re-init-after-step, or after "
     ">=2 full steps. Distinct = SHA-1 of the case."
 )
+RULE += ' to_function is called on the stepping engine, on a fresh engine of the same symbol type, or on an engine of the other symbol type.'
 BUDGET = {"quick": {"examples": 350, "shards": 4}, "thorough": {"fuzz_runs": 3000, "examples": 2500, "shards": 16}}
 EXPECTED_LABELS = ("step_fail", "restep_all", "manual", "elstep:failed", "replace:dest", "replace:origin", "engine:SX", "engine:MX", "compile:not-ready:raised", "compile:ready:returned", "compile:after-add", "compile:after-reinit",
                    "compile:after-2-steps", "compile:before-any-step", "same-symbols-restep", "late:ramp", "late:link", "late:branch", "late:source",
